@@ -16,7 +16,7 @@ RULE = ("cases from rng(seed, 2, 0, i): a random graph of 1..40 edges over r2/r3
         "every 4th case is a consistent graph (measurements generated from the vertices by the reference model) checked for chi2=0 and "
         "chi2>0 after perturbing one measurement; every 5th checks linearity in Omega on twin edges; every 8th case is an operand history on one live edge (estimate / pose / offset / information replaced or modified in place between calls). distinct = fingerprint of the spec; "
         "non-trivial = chi2 above 1e3 x rounding bound, or a consistent graph with >=3 edges.")
-REQ = ["eval:error-vs-reference", "eval:chi2-vs-eT-Omega-e", "eval:graph-chi2-is-sum", "eval:optimize-initial-chi2-is-graph-chi2", "eval:consistent-graph-chi2-zero", "eval:perturbed-measurement-chi2-positive",
+REQ = ["eval:error-vs-reference", "eval:information-stored-as-given", "eval:chi2-vs-eT-Omega-e", "eval:graph-chi2-is-sum", "eval:optimize-initial-chi2-is-graph-chi2", "eval:consistent-graph-chi2-zero", "eval:perturbed-measurement-chi2-positive",
        "eval:chi2-linear-in-Omega", "eval:chi2-nonnegative-psd", "kind:odo-se3", "kind:lm-se3", "kind:lm-se2", "kind:lm-r2", "class:info:cross", "class:info:tiny_scale", "class:info:huge_scale", "class:q:wneg", "class:landmark_offset_rotated", "history_steps"]
 PLAN = {
     "quick": {"cases": 6000, "soft_s": 60, "min_nontrivial": 1000, "require": REQ},
@@ -127,7 +127,12 @@ def run_case(ctx, i, rng):
     tot_bound = 0.0
     all_in = True
     scale = 1.0
-    for e in g._edges:
+    for e, es in zip(g._edges, spec["edges"]):
+        # the information matrix the edge works with is the one it was given (same values, double precision)
+        given = np.array(es["info"], dtype=np.float64)
+        live = np.asarray(e.information)
+        ctx.check("information-stored-as-given", live.shape == given.shape and np.array_equal(live.astype(np.float64), given) and live.dtype == np.float64, O.edge_features(e),
+                  {"dtype": str(live.dtype), "max_abs_diff": float(np.abs(live.astype(np.float64) - given).max()) if live.shape == given.shape else None}, case)
         r = O.check_edge_error(ctx, e, "graph-edge", case=case)
         if r is None:
             all_in = False
